@@ -192,3 +192,18 @@ func Summarise(name string) {}
 // PreemptionBound limits the number of forced context switches per explored schedule
 // (engine only; switches at blocking operations are always explored).
 func PreemptionBound(n int) {}
+
+// Native reports whether the harness runs natively (replay / validation) rather than in the engine.
+func Native() bool { return true }
+
+// ExecuteFails makes the engine's stub of (*cobra.Command).Execute return an error (engine only).
+func ExecuteFails(bool) {}
+
+// ExitCodeOf runs f and returns the status it passes to os.Exit, or -1 when f returns
+// (engine only; natively harnesses run the real binary instead, see RunCrd).
+func ExitCodeOf(f func()) int { f(); return -1 }
+
+// TempPath names a scratch file: a real temporary path natively, an in-memory name in the engine.
+func TempPath(name string) string {
+	return os.TempDir() + "/crdverif-" + strconv.Itoa(os.Getpid()) + "-" + name
+}
